@@ -208,6 +208,19 @@ def query_message(ctx, q, m, spec, origin, npaths):
                             'query %r returned %r, evaluation over the nested view gives %r' % (full, obs[1], ref[1]),
                             dict(spec, expr=full), expected=ref[1], observed=obs[1])
             else:
+                if rng.random() < 0.12:
+                    # the same path written as a file or a shell would hand it over: a line end behind it, tabs / line ends between
+                    # the steps, blanks in front
+                    spaced = rng.choice(['%s\n', '%s\r\n', '\t%s', '  %s  ', '%s\t']) % full.replace('/', rng.choice(['\t/', '/\n', ' / ', '/'])).replace('.', rng.choice(['.', ' .\t']))
+                    ctx.count('queries_with_other_white_space')
+                    try:
+                        qs = q.query(m, spaced)
+                        obs2 = (norm(qs.all_values()[0]) if qs.subset_indices() else None, qs.subset_indices())
+                    except Exception as ex:
+                        obs2 = ('raises ' + type(ex).__name__,)
+                    if obs2 != (obs[1], obs[2]):
+                        ctx.violate('query-differs-with-other-white-space/%s' % mode, 'query %r returns %r, the same path written %r returns %r'
+                                    % (full, (obs[1], obs[2]), spaced, obs2), dict(spec, expr=full, spaced=spaced))
                 # a result belongs to the caller: results of queries on EARLIER messages, kept while this querent went on to answer
                 # queries about other messages, still give the values they designated when they are read now
                 held = ctx.__dict__.setdefault('_c16_held', [])
